@@ -218,8 +218,12 @@ def check_by_value(ctx, cfg):
         names = [c.key or c.fn for c in a.calls]
         raw = [c.fn for c in a.calls if c.fn.startswith("core::ptr::") or c.fn.startswith("core::mem::forget") or c.fn.startswith("core::mem::ManuallyDrop")]
         drops_self = [d for d in a.drops if d["place"]["l"] == 1 and not d["place"]["p"] and not d["cleanup"]]
-        ok = not raw and len(drops_self) == 1 and all(k in ("<GenericArrayIter<$0,$1> as core::iter::ExactSizeIterator>::len", "<GenericArrayIter<$0,$1> as core::iter::DoubleEndedIterator>::next_back") for k in names)
-        ctx.ob(rule, key, ok, "calls %s; raw operations: %s; self dropped exactly once on the normal path: %s" % (names, raw, len(drops_self) == 1), at=b["at"], cfg=cfg)
+        # an explicit `drop(self)` is the same single drop, performed by core::mem::drop::<GenericArrayIter<..>> on the moved value
+        moved = [c for c in a.calls if c.fn == "core::mem::drop" and c.targs and c.targs[0].get("def", "").split("::")[-1] == "GenericArrayIter"]
+        once = len(drops_self) + len(moved) == 1
+        allowed = ("<GenericArrayIter<$0,$1> as core::iter::ExactSizeIterator>::len", "<GenericArrayIter<$0,$1> as core::iter::DoubleEndedIterator>::next_back")
+        ok = not raw and once and all(k in allowed or c in moved for k, c in zip(names, a.calls))
+        ctx.ob(rule, key, ok, "calls %s; raw operations: %s; self dropped exactly once on the normal path: %s" % (names, raw, once), at=b["at"], cfg=cfg)
 
 
 def check(ctx):
